@@ -19,4 +19,13 @@ INFO = {
    explanation="Kani/CBMC bounded model checking of the real bignum kernels and public operations; oracles are u128/i128 arithmetic, sums of 32x32 partial products, and the division lemma q*b <= a < q*b+b",
    assumptions=["operands are normalised (no leading zero limb, zero non-negative), which every public constructor establishes",
                 "gcd(a,b) = gcd(b, a mod b) (mathematical fact used by the gcd-chain oracle)"]),
+ "C06": dict(
+   level="model_checking",
+   functions=["Num::add", "Num::mul", "Num::neg", "Num::minus", "Num::flip", "Num::floor", "Num::is_pos", "Num::is_nan", "Num::optimize",
+              "Num::from_big_num", "Num::nan", "<Num as PartialEq>::eq (derived)", "ops::{AddAssign,MulAssign,Neg} for Num"],
+   bounds="exact variants (gcd = Euclid model incl. sign): numerators -15..15, denominators 1..15 (add/mul), |n|,|d| < 128 (optimize); contract variants (gcd = any common divisor with exact cofactors, any sign): 8-bit magnitudes quick / 15-bit thorough, 16-bit for optimize; flip/neg/is_pos/floor: full one-limb (32-bit) values; NaN in both encodings",
+   outside="multi-limb numerators/denominators (the BigNum operations underneath are decided separately under C05 and replaced here by exact one-limb models); Num::new(0,0)/from_string(\"0/0\") (0/0 is not produced by any operation); Display text (C09)",
+   explanation="Kani/CBMC bounded model checking of the real Num code over one-limb models of BigNum::{add,mul,div,gcd}; result compared with the canonical form of the exact rational value (value, lowest terms via the gcd, positive denominator, non-negative zero)",
+   assumptions=["BigNum::{add,mul,div,gcd} behave as their one-limb models (decided under C05; validity of the gcd sign model checked by gcd_model_valid8)",
+                "inputs have positive denominators"]),
 }
